@@ -1304,10 +1304,26 @@ def search(ctx, budget_s):
     ctx.notes.append("search: %d further cases through the oracle, no unlisted violation" % n)
 
 
+def gen_overwritten():
+    """True when coq/Gen/Pdm.v is not what the translator derives from this run's source"""
+    import os
+    from dv import gen_pdm
+    try:
+        want = gen_pdm.generate(core.REPO)
+    except Exception:
+        return False          # fail-closed stub: handled by proof_stage
+    try:
+        with open(os.path.join(core.COQ, "Gen", "Pdm.v")) as f:
+            return f.read() != want
+    except OSError:
+        return True
+
+
 def run(tier, seed, replay=None):
     ctx = core.Ctx("C14", tier, seed)
     ctx.assumptions = [
-        "model coq/Model/C14Model.v is a hand transcription of phylogeneticdistance.py / treemeasure.patristic_distance / Tree.mrca; tied by this correspondence run",
+        "model coq/Model/C14Model.v is a hand transcription of phylogeneticdistance.py / treemeasure.patristic_distance / Tree.mrca; tied by this correspondence run, and for compile_from_tree, _mirror_lookups, the accessors, the Tree.mrca descent loop and the NJ/UPGMA arithmetic by the translator tie Props/C14Gen.v (coq/Gen/Pdm.v is generated from the current source by py/dv/gen_pdm.py, fail closed)",
+        "translator tie: the meaning of the Python primitives (dict/list/set operations, node attributes in a heap, for/while loops, exceptions) is coq/Model/C14GenPrims.v; tree.postorder_node_iter() is Tree.postorder (property C15); is_store_path_edges = False",
         "edge lengths are multiples of 2^-10 with small numerators: binary64 sums are exact; divisions are compared with the model's rationals within 1e-12 (summaries) / 1e-9 (NJ, UPGMA lengths)",
         "iteration order of the id()-hashed set _mapped_taxa is read from the implementation and given to the NJ/UPGMA model as input; inputs whose tie-breaks depend on binary64 rounding are left out",
         "leaf taxa are pairwise distinct and sit on leaves only (theorem hypotheses)",
@@ -1319,8 +1335,18 @@ def run(tier, seed, replay=None):
         obs = observe(case)
         print("oracle:", oracle(case, obs))
         return 0
-    ok = core.proof_stage(ctx, ["Props/C14.vo"], gen_needed=("none",))
-    if not ok:
+    ok = core.proof_stage(ctx, ["Props/C14.vo"], gen_needed=("__none__",))
+    # translator tie: Gen/Pdm.v (regenerated from the current phylogeneticdistance.py / _tree.py) = the model
+    ok_gen = core.proof_stage(ctx, ["Props/C14Gen.vo"], props_file="Props/C14Gen.v", gen_needed=("Pdm",))
+    if gen_overwritten():
+        # another check running concurrently regenerates coq/Gen from its own DV_REPO: build again
+        ctx.notes.append("coq/Gen/Pdm.v was overwritten by a concurrent run during the build; translator tie repeated")
+        ctx.obligations = [o for o in ctx.obligations if o[1]]
+        ok_gen = core.proof_stage(ctx, ["Props/C14Gen.vo"], props_file="Props/C14Gen.v", gen_needed=("Pdm",))
+        if gen_overwritten():
+            ctx.obligation("coq/Gen/Pdm.v stable during the build (no concurrent regeneration)", False)
+            ok_gen = False
+    if not (ok and ok_gen):
         core.broken_proof(ctx, search)
     n = 420 if tier == "quick" else 6000
     cases = probe_cases() + [gen_case(ctx.rng, tier) for _ in range(n)]
